@@ -49,6 +49,9 @@ def _serialize_ds9(regions, precision=8):
     for region in region_data:
         region_meta = deepcopy(region['meta'])
         region_meta.pop('tag', None)  # "tag" cannot be in global metadata
+        # a global "include" is overridden by each region's (implicit)
+        # include sign when read back, so keep it with the region
+        region_meta.pop('include', None)
         all_meta.append(region_meta)
 
     # keep the order of the first region (a set of items would make the
